@@ -12,7 +12,7 @@ use crate::inputs::*;
 pub fn run(ctx: &Ctx) {
     ctx.set_rule(
         "every input of layers A (all strings over the 14-byte markup alphabet), C (atom sequences) and D \
-         (construct contexts) x all 128 configurations. One execution = the real slice reader under cfg, compared \
+         (construct contexts) x all 128 configurations; layers A and C again on the buffered reader with piece sizes 1, 2, 3. One execution = the real slice reader under cfg, compared \
          with T_cfg(neutral run of the same reader): Empty -> Start+End of the same name, text trimmed / dropped \
          when empty, end names right-trimmed, comments with `--` -> error, end-name checks against the \
          open-element stack; buffer position after every source construct and error position of errors present \
@@ -24,7 +24,7 @@ pub fn run(ctx: &Ctx) {
     let full = cfg!(feature = "full");
     let all: Vec<u8> = (0..128).collect();
     let a_len = t.pick(6, 7);
-    let mut run = Run { ctx, known: Known::load(), layer_no: 0, a_len: a_len as usize, neutral: true };
+    let mut run = Run { ctx, known: Known::load(), layer_no: 0, a_len: a_len as usize, neutral: true, script: None };
     if !full {
         run.space(&raw("A.raw_x_cfg(min)", SIGMA_M, t.pick(4, 5)), &all, true);
         return;
@@ -33,5 +33,12 @@ pub fn run(ctx: &Ctx) {
     run.space(&atoms("C.atoms_x_cfg", ATOMS_C, t.pick(4, 5)), &all, false);
     for sp in contexts(|m| t.pick(m.min(5), m), false) {
         run.space(&sp, &all, false);
+    }
+    // the same metamorphic relation on the buffered reader (option handling that lives in the
+    // source: skip_whitespace for trim_text_start, buffer reuse), under three chunkings
+    for piece in [1usize, 2, 3] {
+        run.script = Some(crate::env::Script::pieces(piece));
+        run.space(&raw(&format!("A.raw_x_cfg.buffered(piece={})", piece), SIGMA_M, t.pick(5, 6)), &all, false);
+        run.space(&atoms(&format!("C.atoms_x_cfg.buffered(piece={})", piece), ATOMS_C, t.pick(3, 4)), &all, false);
     }
 }
